@@ -55,7 +55,7 @@ func writeCsv(c *Ctx, cfg csvCfgT, eol string, rows [][]string, forceQuote bool)
 func runCsvCase(c *Ctx, cfg csvCfgT, eol string, rows [][]string, text string) {
 	// the configuration is reached through one of three histories of setter calls (c: quotes cleared, separators,
 	// quotes; C: separators, then quotes replacing the default one; D: other quotes and separators first)
-	kind := fmt.Sprintf("%s:%s:%s", []string{"c", "C", "D"}[c.Rng.Intn(3)], runesStr(cfg.seps), runesStr(cfg.quotes))
+	kind := fmt.Sprintf("%s:%s:%s", []string{"c", "C", "D", "E"}[c.Rng.Intn(4)], runesStr(cfg.seps), runesStr(cfg.quotes))
 	op := tokOpLine(kind, 64, []rune(text))
 	ts, st := tokenizeImpl(kind, 64, text)
 	if c.Evals%8 == 3 {
@@ -170,7 +170,7 @@ func propC09(c *Ctx) {
 		nr := 1 + c.Rng.Intn(5)
 		nc := 1 + c.Rng.Intn(4)
 		rows := make([][]string, nr)
-		pool := []rune{'a', 'b', '1', ' ', 0xe9, 0xff, 0x100, 0x101, 0x416, 0x4e16, 0xfffe, 0xfeff, 0, '\r', '\n', ',', ';', '"', '\''}
+		pool := []rune{'a', 'b', '1', ' ', 0xe9, 0xff, 0x100, 0x101, 0x416, 0x4e16, 0x201c, 0x2028, 0xfffe, 0xfeff, 0, '\r', '\n', ',', ';', '"', '\''}
 		pool = append(pool, cfg.seps...)
 		pool = append(pool, cfg.quotes...)
 		pool = append(pool, cfg.quotes...)
